@@ -1,0 +1,54 @@
+//go:build verif
+
+package workqueue
+
+import (
+	"time"
+
+	"k8s.io/client-go/util/workqueue"
+)
+
+// VerifLimiterLast reads the `last` field of one of the two rate limiters of this package.
+func VerifLimiterLast(rl any) (time.Time, bool) {
+	switch r := rl.(type) {
+	case *reloadHAProxy:
+		r.mu.Lock()
+		defer r.mu.Unlock()
+		return r.last, true
+	case interface{ verifLast() time.Time }:
+		return r.verifLast(), true
+	}
+	return time.Time{}, false
+}
+
+// VerifLimiterSetLast overwrites the `last` field.
+func VerifLimiterSetLast(rl any, t time.Time) bool {
+	switch r := rl.(type) {
+	case *reloadHAProxy:
+		r.mu.Lock()
+		defer r.mu.Unlock()
+		r.last = t
+		return true
+	case interface{ verifSetLast(time.Time) }:
+		r.verifSetLast(t)
+		return true
+	}
+	return false
+}
+
+func (r *ingressReconciler[T]) verifLast() time.Time {
+	r.mu.Lock()
+	defer r.mu.Unlock()
+	return r.last
+}
+
+func (r *ingressReconciler[T]) verifSetLast(t time.Time) {
+	r.mu.Lock()
+	defer r.mu.Unlock()
+	r.last = t
+}
+
+// VerifQueue gives access to the client-go queue inside a WorkQueue.
+func VerifQueue[T comparable](w *WorkQueue[T]) workqueue.TypedRateLimitingInterface[T] {
+	return w.queue
+}
